@@ -543,6 +543,7 @@ import os  # noqa: E402
 from hypothesis import strategies as st  # noqa: E402
 
 from .. import scope_model  # noqa: E402
+from . import c13_foreign  # noqa: E402
 from ..core import Check, Layer, Outcome  # noqa: E402
 
 # Confirmed defects of /repo (DESIGN.md section 4).  While a flag is True the shape is recognised (by the reference
@@ -1061,11 +1062,14 @@ CHECK = Check(
         "children + optional external task.cancel() at a generated virtual time (and loop-turn offset in the tie class), "
         "run on the virtual-time loop; non-trivial = (lexical scope nesting >= 2 and a scope exits with cancel_called() "
         "while another scope is active or was active inside it) or (an ignore_cancellation block ends with a cancellation "
-        "pending on its task); distinct = sha1 of the canonical case JSON"
+        "pending on its task); layer foreign-mix: 2-5 blocks (7 scope kinds incl. asyncio.timeout/timeout_at, delay 0 / k+1/2 units / never, "
+        "bodies of unshielded and shielded checkpoints and sleeps, nesting <= 3), non-trivial = a shielded step swallowed an expired "
+        "deadline and something ran afterwards; distinct = sha1 of the canonical case JSON"
     ),
     layers=[
         Layer("invariants", st_invariants, run_invariants, {"quick": 2500, "thorough": 12000}),
         Layer("exact", st_exact, run_exact, {"quick": 3000, "thorough": 16000}),
+        c13_foreign.LAYER,
     ],
     assumptions=[
         "asyncio backend only (trio is not installed); time is the virtual clock of pbt.vloop; busy-run clock jumps are asserted to "
